@@ -35,6 +35,7 @@ type schedVec struct {
 	Steps []sstep `json:"steps"`
 	Scene uniVec  `json:"scene"`
 	Full  bool    `json:"full"` // also return the projected mesh (judged by UniTrace)
+	Gen   string  `json:"gen,omitempty"` // "seq" | "stall": the per-layer schedule is generated for the scene's batch count
 }
 
 // pgate parks the main goroutine and the workers at their hooks.
@@ -170,10 +171,45 @@ func uniField(u uniVec) *sceneField {
 
 const schedTimeout = 10 * time.Second
 
+// genSteps builds a per-layer schedule for a layer of nb batches:
+//   seq:   every batch is sent, received, processed and completed before the next one
+//   stall: worker 1 receives the first batch and is held while worker 2 handles all the others,
+//          then worker 1 processes its batch (a long-stalled worker)
+func genSteps(kind string, nb int) []sstep {
+	var st []sstep
+	if kind == "seq" {
+		for b := 0; b < nb; b++ {
+			st = append(st, sstep{"S", 1, 0}, sstep{"R", 1, 0}, sstep{"P", 1, 0}, sstep{"D", 1, 0})
+		}
+	} else {
+		hold := 16 // the batch worker 1 sits on (a row inside the solid)
+		if hold >= nb {
+			hold = 0
+		}
+		for b := 0; b < nb; b++ {
+			if b == hold {
+				st = append(st, sstep{"S", 1, 0}, sstep{"R", 1, 0})
+			} else {
+				st = append(st, sstep{"S", 1, 0}, sstep{"R", 2, 0}, sstep{"P", 2, 0}, sstep{"D", 2, 0})
+			}
+		}
+		st = append(st, sstep{"P", 1, 0}, sstep{"D", 1, 0})
+	}
+	return append(st, sstep{"W", 1, 0})
+}
+
 func runSched(g *pgate, v schedVec) schedObs {
+	if v.Gen != "" {
+		n := (v.Scene.Dims[1] + 2) * (v.Scene.Dims[2] + 2)
+		v.Steps = genSteps(v.Gen, (n+99)/100)
+	}
 	o := schedObs{Ev: "sched", Dims: v.Scene.Dims, Scene: sceneVec{K: v.Scene.K, Parts: v.Scene.Parts}, W: v.W, Full: v.Full, Tris: []edgeTri{}}
-	for _, s := range v.Steps {
-		o.Sched += fmt.Sprintf("%s%d ", s.Op, s.A)
+	if v.Gen != "" {
+		o.Sched = "generated:" + v.Gen
+	} else {
+		for _, s := range v.Steps {
+			o.Sched += fmt.Sprintf("%s%d ", s.Op, s.A)
+		}
 	}
 	f := uniField(v.Scene)
 	var ts []*sdf.Triangle3
